@@ -6,10 +6,15 @@
     never retries from a cursor it has already tried, gives up at once when the lexer has no
     recover state, and turns a failed recovery scan into the recovery error - for arbitrary wrapped
     parsers (these are the three ways the unrepaired stabilize looped forever).
-    Partial: that repetitions of non-nullable bodies, list loops and bracket scans end within
-    fuel proportional to the text is NOT proved; it is decided by the supervised correspondence run
+    (iv) repetitions: the loops of repeat.rs need no more fuel than a measure that every successful
+    step strictly decreases (ARBITRARY steps); for item parsers of the C06 core fragment that
+    consume at least one token whenever they succeed, intersperse/repeat end within fuel above the
+    nesting depth and the number of deliverable tokens; (v) the bracket scan and the recovery scan
+    end within the lexer's own fuel (C10, C12 theorems are stated with that fuel).
+    Partial: termination of the list loops, of until-variants and of repetitions over non-core
+    bodies is NOT proved; it is decided by the supervised correspondence run
     (the real code is run under a watchdog; the model under fuel 80 + 10*len + 10*size). *)
-From Tephra Require Import MetricsSpec CLexer LexerFacts Run Peg RunCore RunRecover RunTotal.
+From Tephra Require Import MetricsSpec CLexer LexerFacts Run Peg RunCore RunRecover RunTotal RunLoops RunFuel.
 
 Theorem C02_core_fuel_suffices :
   forall m, 1 <= tabw m -> forall t, wf_text t ->
@@ -56,6 +61,41 @@ Theorem C02_stabilize_retry_only_after_progress :
   = stab_loop runf n (S att) a c lx1 (runf a lx1 (ctx_unrec c) st1).
 Proof. exact stabilize_retry. Qed.
 Print Assumptions C02_stabilize_retry_only_after_progress.
+
+(** repetitions: fuel above a strictly decreasing measure suffices, for arbitrary steps *)
+Theorem C02_loops_need_fuel_above_a_decreasing_measure :
+  forall (P : clexer -> nat -> Prop) (step : clexer -> store -> R),
+  (forall l j j', P l j -> j <= j' -> P l j') ->
+  (forall l j s, P l j ->
+     match step l s with
+     | (ROk _ l', _) => exists j', j = S j' /\ P l' j'
+     | (RFuel, _) => False
+     | _ => True
+     end) ->
+  (forall n hi vals cur st k, P cur k -> k < n -> fst (opt_loop n hi None step vals cur st) <> RFuel)
+  /\ (forall n lo vals cur st k (kont : list val -> clexer -> store -> R), P cur k -> k < n ->
+       (forall vs l s j, P l j -> j <= k -> fst (kont vs l s) <> RFuel) ->
+       fst (mand_loop n lo None step vals cur st kont) <> RFuel).
+Proof.
+  intros P step Hm Hs. split.
+  - exact (opt_loop_fuel P step Hm Hs).
+  - exact (mand_loop_fuel P step Hm Hs).
+Qed.
+Print Assumptions C02_loops_need_fuel_above_a_decreasing_measure.
+
+Theorem C02_repetition_of_nonnullable_core_items_terminates :
+  forall m, 1 <= tabw m -> forall t, wf_text t ->
+  forall f lo hi a s lx ys c st,
+  in_core a = true -> in_core s = true -> nonnull a -> gdepth a < f -> gdepth s < f -> Inv m t lx ys ->
+  length (kept (c_filter lx) ys) <= f ->
+  fst (run (S f) (GIntersperse lo hi a s) lx c st) <> RFuel.
+Proof. exact intersperse_terminates. Qed.
+Print Assumptions C02_repetition_of_nonnullable_core_items_terminates.
+
+Theorem C02_nonnull_satisfiable :
+  (forall k, nonnull (GOne k)) /\ (forall a b, nonnull a -> nonnull (GBoth a b)).
+Proof. split; [exact nonnull_one|exact nonnull_both]. Qed.
+Print Assumptions C02_nonnull_satisfiable.
 
 (** concrete: stabilize(one b) on "a" without recover state and with one: both end at once *)
 Example C02_example :
